@@ -34,6 +34,11 @@ pub fn command(t: &TestSpec, log: &str) -> String {
     if t.detached {
         return c;
     }
+    match t.trap_term {
+        1 => c.push_str("; trap '' TERM"),
+        2 => c.push_str("; trap 'echo cleanup' TERM"),
+        _ => {}
+    }
     if t.sleep_ms > 0 {
         c.push_str(&format!("; sleep {}.{:03}; echo {}-late >> {}", t.sleep_ms / 1000, t.sleep_ms % 1000, t.id, log));
     }
@@ -230,14 +235,25 @@ pub fn drive(
     write_docs(sb, run);
     let args = argv(run);
     let argrefs: Vec<&str> = args.iter().map(|s| s.as_str()).collect();
-    let proc = ScrutCmd::new(sb, &argrefs).watchdog(watchdog).run(env);
+    let mut proc = ScrutCmd::new(sb, &argrefs).watchdog(watchdog).run(env);
+    if proc.signal == Some(libc::SIGKILL) && !proc.watchdog_fired {
+        // scrut does not SIGKILL itself: somebody else's clean-up hit a recycled process group
+        // id (pid_max is small here). Not an observation about scrut: start over once.
+        let _ = std::fs::remove_file(&sb.log);
+        let _ = std::fs::remove_file(&sb.trace);
+        proc = ScrutCmd::new(sb, &argrefs).watchdog(watchdog).run(env);
+    }
     let t0 = Instant::now();
     let mut markers = sb.markers();
     while awaited(&markers) && t0.elapsed() < settle_max {
         std::thread::sleep(Duration::from_millis(25));
         markers = sb.markers();
     }
-    proc.kill_group();
+    // only runs that can leave processes behind (sleepers, detached commands) are cleaned up: the
+    // process group id may have been recycled by the time nobody of the group is left
+    if run.docs.iter().chain(run.aux.iter()).any(|d| d.tests.iter().any(|t| t.sleep_ms >= 1000 || t.detached)) {
+        proc.kill_group();
+    }
     let (results, json_error) = match proc.json() {
         Ok(arr) => (
             Some(
